@@ -528,6 +528,50 @@ def empty_wrappers(ctx):
                 ctx.fail("call rejected although extraArgumentErrors is off", meta, str(e), "accepted")
 
 
+def repeating_and_foreign_typed_wrappers(ctx):
+    """(a) a repeating parameter given as a list or as a tuple, positionally or by keyword: one request; (b) a wrapper
+    element whose named type lives in another namespace: the unwrapped call, and the dict and the factory object with
+    unwrapping disabled, send the same request - the wrapper in the element's namespace."""
+    schema = ('<xsd:element name="f"><xsd:complexType><xsd:sequence><xsd:element name="a" type="xsd:string"/>'
+              '<xsd:element name="r" type="xsd:int" minOccurs="0" maxOccurs="unbounded"/></xsd:sequence></xsd:complexType>'
+              '</xsd:element>')
+    c = wsdlkit.client(wsdlkit.wsdl_doc(schema, "f", None), nosend=True)
+    want = wsdlkit.envelope_bytes(c.service.f("x", [1, 2, 3]))
+    for label, call in (("tuple positional", lambda: c.service.f("x", (1, 2, 3))),
+                        ("tuple keyword", lambda: c.service.f(a="x", r=(1, 2, 3))),
+                        ("list keyword", lambda: c.service.f(r=[1, 2, 3], a="x")),
+                        ("mixed", lambda: c.service.f("x", r=(1, 2, 3)))):
+        meta = {"stream": "repeating-parameter", "style": label}
+        ctx.case(common.canon(meta), True)
+        try:
+            got = wsdlkit.envelope_bytes(call())
+        except Exception as e:
+            got = ("%s: %s" % (type(e).__name__, e)).encode()
+        if got != want:
+            ctx.fail("call styles send different requests", meta, got.decode("utf-8", "replace"), want.decode())
+    other = ('<xsd:schema targetNamespace="urn:other" elementFormDefault="qualified"><xsd:complexType name="T">'
+             '<xsd:sequence><xsd:element name="p" type="xsd:string"/><xsd:element name="q" type="xsd:int" minOccurs="0"/>'
+             '</xsd:sequence></xsd:complexType></xsd:schema>')
+    w = wsdlkit.wsdl_doc('<xsd:import namespace="urn:other"/><xsd:element name="f" type="o:T"/>', "f", None,
+                         extra_schemas=other).replace(b"<wsdl:definitions ", b'<wsdl:definitions xmlns:o="urn:other" ', 1)
+    cu, cr = wsdlkit.client(w, nosend=True), wsdlkit.client(w, nosend=True, unwrap=False)
+    obj = cr.factory.create("{urn:other}T")
+    obj.p, obj.q = "vp", 4
+    shapes = {}
+    for label, call in (("unwrapped", lambda: cu.service.f("vp", 4)), ("unwrapped keywords", lambda: cu.service.f(q=4, p="vp")),
+                        ("dict", lambda: cr.service.f({"p": "vp", "q": 4})), ("factory object", lambda: cr.service.f(obj))):
+        meta = {"stream": "foreign-typed-wrapper", "style": label}
+        ctx.case(common.canon(meta), True)
+        try:
+            fn = xmlread.find1(xmlread.parse(wsdlkit.envelope_bytes(call())), "Body")["children"][0]
+            shapes[label] = [list(fn["name"]), [[list(k["name"]), k.get("text")] for k in fn["children"]]]
+        except Exception as e:
+            shapes[label] = "%s: %s" % (type(e).__name__, e)
+        exp = [[wsdlkit.TNS, "f"], [[["urn:other", "p"], "vp"], [["urn:other", "q"], "4"]]]
+        if shapes[label] != exp:
+            ctx.fail("call styles send different requests", meta, shapes[label], exp)
+
+
 def rpc_and_ports(ctx):
     """(C) the two binding-level sites around the parser: rpc operations bind positional and keyword values alike
     (None included), and same-named operations of two ports are each bound against their own parameters."""
@@ -613,6 +657,7 @@ def run(ctx):
     client_checks(ctx)
     rpc_and_ports(ctx)
     empty_wrappers(ctx)
+    repeating_and_foreign_typed_wrappers(ctx)
 
 
 def widen(ctx):
